@@ -14,6 +14,7 @@ import (
 	"sync"
 	"time"
 
+	eth2client "github.com/attestantio/go-eth2-client"
 	"github.com/attestantio/go-eth2-client/api"
 	apiv1 "github.com/attestantio/go-eth2-client/api/v1"
 	"github.com/attestantio/go-eth2-client/spec/phase0"
@@ -21,6 +22,9 @@ import (
 	attstd "github.com/attestantio/vouch/services/attester/standard"
 	nullmetrics "github.com/attestantio/vouch/services/metrics/null"
 	signerstd "github.com/attestantio/vouch/services/signer/standard"
+	adbest "github.com/attestantio/vouch/strategies/attestationdata/best"
+	adfirst "github.com/attestantio/vouch/strategies/attestationdata/first"
+	admajority "github.com/attestantio/vouch/strategies/attestationdata/majority"
 	"github.com/rs/zerolog"
 	e2wtypes "github.com/wealdtech/go-eth2-wallet-types/v2"
 	"verif/harness"
@@ -38,7 +42,8 @@ type Run struct {
 	Slot      uint64            `json:"slot"`
 	Entries   []Entry           `json:"entries"`
 	Sizes     map[uint64]uint64 `json:"sizes"`
-	DataKind  string            `json:"data"` // ok | error | wrong-slot | target-above | target-below | source-above-target
+	DataKind  string            `json:"data"`                          // ok | error | wrong-slot | target-above | target-below | source-above-target
+	DataKind2 string            `json:"data_of_second_node,omitempty"` // when a strategy sits in front of the attester
 	Missing   []uint64          `json:"missing_accounts,omitempty"`
 	AcctErr   bool              `json:"accounts_error,omitempty"`
 	SignFault map[uint64]int    `json:"sign_faults,omitempty"` // validator -> harness.Fault*
@@ -52,6 +57,7 @@ type History struct {
 	Dirk          bool   `json:"dirk_like_accounts"`
 	NVal          int    `json:"validators"`
 	Merge         bool   `json:"duties_built_by_MergeDuties"`
+	Strategy      string `json:"attestation_data_strategy,omitempty"` // best | majority | first: the real strategy over two scripted nodes feeds the attester
 	Runs          []Run  `json:"runs"`
 }
 
@@ -116,6 +122,26 @@ type reply struct {
 }
 
 type ctxKey struct{}
+type ctxSecond struct{}
+
+// secondNode is the second beacon node behind a strategy: same script, its own kind of reply.
+type secondNode struct{ s *sim }
+
+func (n secondNode) AttestationData(ctx context.Context, opts *api.AttestationDataOpts) (*api.Response[*phase0.AttestationData], error) {
+	return n.s.AttestationData(context.WithValue(ctx, ctxSecond{}, true), opts)
+}
+
+type rootSlots struct{ s *sim }
+
+// BlockRootToSlot gives the strategies' scoring the slot of a head root: the run's slot for roots the script produced.
+func (c rootSlots) BlockRootToSlot(_ context.Context, root phase0.Root) (phase0.Slot, error) {
+	c.s.mu.Lock()
+	defer c.s.mu.Unlock()
+	if rp, ok := c.s.replies[root]; ok {
+		return phase0.Slot(c.s.h.Runs[rp.run].Slot), nil
+	}
+	return 0, errors.New("unknown root")
+}
 
 func rootFor(run int, n uint64) phase0.Root {
 	var r phase0.Root
@@ -129,6 +155,9 @@ func rootFor(run int, n uint64) phase0.Root {
 func (s *sim) AttestationData(ctx context.Context, opts *api.AttestationDataOpts) (*api.Response[*phase0.AttestationData], error) {
 	ri, _ := ctx.Value(ctxKey{}).(int)
 	run := s.h.Runs[ri]
+	if second, _ := ctx.Value(ctxSecond{}).(bool); second {
+		run.DataKind = run.DataKind2
+	}
 	if run.DataKind == "error" {
 		return nil, errors.New("scripted data failure")
 	}
@@ -371,6 +400,14 @@ func Generate(r *rand.Rand) *History {
 		}
 	}
 	h.Runs[len(h.Runs)-1].Overlap = false
+	// a third of the histories put a real attestation data strategy over two nodes in front of the attester
+	r2 := rand.New(rand.NewSource(r.Int63()))
+	if r2.Intn(3) == 0 {
+		h.Strategy = []string{"best", "majority", "first"}[r2.Intn(3)]
+		for i := range h.Runs {
+			h.Runs[i].DataKind2 = dataKinds[r2.Intn(len(dataKinds))]
+		}
+	}
 	return h
 }
 
@@ -400,8 +437,23 @@ func Execute(h *History, r *rand.Rand) (*Trace, error) {
 	if err != nil {
 		return nil, err
 	}
+	var dataProvider eth2client.AttestationDataProvider = s
+	nodes := map[string]eth2client.AttestationDataProvider{"node1": s, "node2": secondNode{s}}
+	switch h.Strategy {
+	case "best":
+		dataProvider, err = adbest.New(ctx, adbest.WithLogLevel(zerolog.Disabled), adbest.WithClientMonitor(nullmetrics.New()), adbest.WithProcessConcurrency(4), adbest.WithAttestationDataProviders(nodes),
+			adbest.WithTimeout(2*time.Second), adbest.WithChainTime(clock), adbest.WithBlockRootToSlotCache(rootSlots{s}))
+	case "majority":
+		dataProvider, err = admajority.New(ctx, admajority.WithLogLevel(zerolog.Disabled), admajority.WithClientMonitor(nullmetrics.New()), admajority.WithProcessConcurrency(4), admajority.WithAttestationDataProviders(nodes),
+			admajority.WithTimeout(2*time.Second), admajority.WithChainTime(clock), admajority.WithBlockRootToSlotCache(rootSlots{s}), admajority.WithThreshold(1))
+	case "first":
+		dataProvider, err = adfirst.New(ctx, adfirst.WithLogLevel(zerolog.Disabled), adfirst.WithClientMonitor(nullmetrics.New()), adfirst.WithAttestationDataProviders(nodes), adfirst.WithTimeout(2*time.Second))
+	}
+	if err != nil {
+		return nil, err
+	}
 	att, err := attstd.New(ctx, attstd.WithLogLevel(zerolog.Disabled), attstd.WithProcessConcurrency(4), attstd.WithChainTime(clock), attstd.WithSpecProvider(specP),
-		attstd.WithAttestationDataProvider(s), attstd.WithAttestationsSubmitter(s), attstd.WithMonitor(nullmetrics.New()),
+		attstd.WithAttestationDataProvider(dataProvider), attstd.WithAttestationsSubmitter(s), attstd.WithMonitor(nullmetrics.New()),
 		attstd.WithValidatingAccountsProvider(s), attstd.WithBeaconAttestationsSigner(s))
 	if err != nil {
 		return nil, err
@@ -491,8 +543,14 @@ func Execute(h *History, r *rand.Rand) (*Trace, error) {
 		}
 		i = j + 1
 	}
+	// nodes a strategy no longer waits for may still be answering: take what there is, under the lock
+	s.mu.Lock()
 	tr := s.trace
-	tr.replies = s.replies
+	tr.replies = make(map[phase0.Root]*reply, len(s.replies))
+	for k, v := range s.replies {
+		tr.replies[k] = v
+	}
+	s.mu.Unlock()
 	return &tr, nil
 }
 
@@ -687,7 +745,7 @@ func Fingerprint(h *History, tr *Trace) string {
 		ks = append(ks, k)
 	}
 	sort.Strings(ks)
-	parts = append(parts, fmt.Sprintf("runs:%d", len(h.Runs)), "data:"+strings.Join(ks, ","), fmt.Sprintf("repeat:%v skipped:%v overlap:%v dirk:%v merge:%v", sameEpochRepeat, skipped, overlap, h.Dirk, h.Merge),
+	parts = append(parts, fmt.Sprintf("runs:%d", len(h.Runs)), "data:"+strings.Join(ks, ","), fmt.Sprintf("repeat:%v skipped:%v overlap:%v dirk:%v merge:%v strategy:%s", sameEpochRepeat, skipped, overlap, h.Dirk, h.Merge, h.Strategy),
 		fmt.Sprintf("signs:%d subs:%d", len(tr.Signs), len(tr.Submits)))
 	return strings.Join(parts, "|")
 }
